@@ -44,7 +44,10 @@ def gen(rng, tier):
                 if cur == 0:
                     break
             else:
-                ops.append(["sum", rng.choice(["copy", "chain", "tree"]), rng.randrange(1 << 30)])
+                # partners of every shape and WIDTH over the same variables (narrower and wider than the current diagram), half of
+                # them with whole levels of zero edge values
+                ops.append(["sum", rng.choice(["copy", "chain", "tree", "mixed", "mixed", "stackp", "tree0", "mixed0"]),
+                            rng.randrange(1 << 30)])
         cases.append({"kind": "ops", "type": rand_type(rng), "seed": rng.randrange(1 << 30), "nv": nv,
                       "shape": rng.choice(["chain", "tree", "nested"]), "ops": ops})
     # in-place restricts of inner variables of trees (several nodes per level with different edge values)
@@ -55,6 +58,30 @@ def gen(rng, tier):
             ops.append(["restrict", rng.randrange(1, nv - 1), rng.randint(0, 1), rng.random() < 0.5])
         cases.append({"kind": "ops", "type": rand_type(rng), "seed": rng.randrange(1 << 30), "nv": nv,
                       "shape": rng.choice(["tree", "tree", "nested"]), "ops": ops})
+    # sums of diagrams of DIFFERENT widths over the same 3-4 variables, in both orders (narrow.sum(wide) and wide.sum(narrow)),
+    # some levels carrying zero values only, followed by restricts of the sum: the product construction over node pairs that are
+    # not aligned, and edge values shared between product nodes
+    shapes = ["chain", "tree", "mixed", "stackp", "mixed0", "stackp0", "tree0", "chain0", "zig", "zig0", "nested"]
+    for k in range(N):
+        nv = rng.choice([3, 4, 4])
+        start = rng.choice(shapes)
+        partner = rng.choice(shapes[:10])
+        if k % 6 == 0:        # two nodes per level told apart by a middle variable, summed with a full tree (unaligned node pairs)
+            nv, start, partner = 4, "zig", "tree"
+        elif k % 6 == 3:
+            start, partner = rng.choice(["zig", "mixed"]), rng.choice(["tree", "stackp", "mixed"])
+        elif k % 4 == 1:      # a chain with values on every edge summed with a wide diagram having whole levels of zeros: edge
+            start, partner = "chain", rng.choice(["tree0", "zig0", "stackp0", "mixed0"])   # values shared between product nodes
+        ops = [["sum", partner, rng.randrange(1 << 30)]]
+        cur = nv
+        for _ in range(2 if k % 4 == 1 else rng.randint(1, 2)):
+            ops.append(["restrict", rng.randrange(cur), rng.randint(0, 1), rng.random() < 0.3])
+            cur -= 1
+        if rng.random() < 0.3:
+            ops.append(["sum", rng.choice(["chain", "tree", "mixed"]), rng.randrange(1 << 30)])
+        # half of them over a roomier value type, so that path sums seldom saturate to the invalid value (which hides differences)
+        ty = rand_type(rng) if k % 2 else {"kind": "plain", "max": [rng.choice([12, 20])]}
+        cases.append({"kind": "ops", "type": ty, "seed": rng.randrange(1 << 30), "nv": nv, "shape": start, "ops": ops})
     for _ in range({"quick": 8, "search": 20, "thorough": 40}[tier]):
         cases.append({"kind": "val", "type": rand_type(rng), "seed": rng.randrange(1 << 30)})
     return cases
@@ -105,6 +132,53 @@ def build_leaf(r, atype, t, units, shape):
     else:
         d = ADD.construct_chain(list(units), atype=atype)
     return randomise(r, d, atype, t)
+
+
+def zero_levels(r, d, atype, p=0.5):
+    """set ALL edge values of some levels to zero (the situation in which a 'zero is the identity' shortcut applies everywhere)"""
+    import copy
+    for i in range(d.nodes.shape[0]):
+        if r.rand() < p:
+            for j in range(d.nodes.shape[1]):
+                for c in range(2):
+                    d.adder[i, j, c] = copy.deepcopy(atype(0))
+    return d
+
+
+def build_partner(r, atype, t, units, kind):
+    """a diagram over exactly `units`, of the requested shape; widths range from 1 (chain) to 2^(n-1) (tree)"""
+    from datascope.utility.add import ADD
+    n = len(units)
+    base = kind.rstrip("0")
+    if base in ("chain", "tree") or n < 2:
+        d = build_leaf(r, atype, t, units, base if base in ("chain", "tree") else "chain")
+    elif base == "zig" and n >= 3:
+        # one or two plain variables, then a switch on a MIDDLE variable between two chains over the remaining ones: two nodes per
+        # level over several levels, told apart by that middle variable only
+        a = 1 if n == 3 or r.rand() < 0.6 else 2
+        rest = list(units[a:])
+        els = {(v,): build_leaf(r, atype, t, rest[1:], "chain") for v in range(2)}
+        d = ADD.concatenate([build_leaf(r, atype, t, list(units[:a]), "chain"), randomise(r, ADD.stack([rest[0]], els), atype, t)])
+    elif base in ("mixed", "zig"):
+        # a concatenation of 2-3 consecutive parts, each a chain, a tree or a header tree over sub-diagrams: the nodes of a level
+        # may then depend on a MIDDLE variable only (not on the first ones), unlike those of a tree over all variables
+        cuts = sorted(set(int(x) for x in r.randint(1, n, size=int(r.randint(1, 3)))))
+        bounds = [0] + cuts + [n]
+        parts = []
+        for lo, hi in zip(bounds, bounds[1:]):
+            sub = list(units[lo:hi])
+            parts.append(build_partner(r, atype, t, sub, str(r.choice(["chain", "tree", "stackp"])) if len(sub) >= 2 else "chain"))
+        d = ADD.concatenate(parts)
+    else:       # a header tree over the first f variables selecting one of 2^f diagrams over the others
+        f = 1 if n < 4 or r.rand() < 0.6 else 2
+        els = {}
+        for val in itertools.product(range(2), repeat=f):
+            els[val] = build_leaf(r, atype, t, units[f:], r.choice(["chain", "tree"]))
+        d = ADD.stack(list(units[:f]), els)
+        d = randomise(r, d, atype, t)
+    if kind.endswith("0"):
+        d = zero_levels(r, d, atype)
+    return d
 
 
 def build_nested(r, atype, t, depth, counter):
@@ -175,6 +249,8 @@ def run_impl(c):
         if c["shape"] == "nested" and c["nv"] >= 2:
             k = c["nv"] // 2
             d = ADD.concatenate([build_leaf(r, atype, t, units[:k], "tree"), build_leaf(r, atype, t, units[k:], "chain")])
+        elif c["shape"] in ("mixed", "stackp", "mixed0", "stackp0", "tree0", "chain0", "zig", "zig0"):
+            d = build_partner(r, atype, t, units, c["shape"])
         else:
             d = build_leaf(r, atype, t, units, c["shape"])
         start = dump(d, t)
@@ -194,7 +270,8 @@ def run_impl(c):
                 if op[1] == "copy":
                     o = randomise(rr, copy.deepcopy(d), atype, t)
                 else:
-                    o = build_leaf(rr, atype, t, list(d.units), op[1])
+                    o = build_partner(rr, atype, t, list(d.units), op[1])
+                    assert list(o.units) == list(d.units), (o.units, d.units)
                 others.append(dump(o, t))
                 d = d.sum(o)
             tables.append(table_of(d))
